@@ -1067,7 +1067,9 @@ class C11(core.Check):
         "counter-clockwise, blocks right-handed, rim on the circle; over R with the source's constants); WrappedDisk, "
         "Oval and Grid are modelled and compared but have no theorem; Elbow, Hemisphere, rings beyond one segment, "
         "spline sketches, the cusp shear of the joints and the distinctness of the generated points stay validator-only; "
-        "joints are proved for 2..6 branches and tested beyond."
+        "joints: a uniform hand model for every branch count, equal to the probes for 2..6 (decide), compared with the "
+        "implementation for every generated count (2..7 quick, 8, 9 thorough), choppable for 2..12 by evaluation; no "
+        "induction over the branch count."
     )
 
     # ------------------------------------------------------------------ generators
@@ -1179,6 +1181,11 @@ class C11(core.Check):
                 c["p"] = {"base": base, "bp": bp, "links": [link]}
                 cases.append(c)
         if tier == "thorough":
+            # joints beyond the probe tables and beyond the quick tier: 8 and 9 branches against the uniform joint model
+            for k in (8, 9, 8, 9):
+                c = gen_case(rng, "NJoint")
+                c["p"]["k"] = k
+                cases.append(c)
             # every sketch class in every lofted / stacked form at least twice
             for sk in SKETCHES:
                 for k in LOFTED + STACKS:
@@ -1323,6 +1330,7 @@ class C11(core.Check):
                 "c11.pts FourCoreDisk 0/1,0/1,0/1 1/1,0/1,0/1 0/1,0/1,2/1 7/10 4/5 9/10",
                 "c11.cyl FourCoreDisk 0/1,0/1,0/1 0/1,0/1,1/1 1/1,0/1,0/1 0/1 7/10 4/5 9/10",
                 "c11.gridpts 0/1 0/1 1/1 1/1 0 2",
+                "c11.joint 1",
             ]
         if case["kind"] == "Pts":
             return [impl["req"]] if "req" in impl else []
@@ -1342,6 +1350,8 @@ class C11(core.Check):
                 reqs.append(f"c11.loft {p['sketch']} {p['k']}")
         elif k == "ExtrudedRing" and not case.get("touch"):
             reqs.append(f"c11.ring {p['n']} 1")
+        elif k == "NJoint":
+            reqs.append(f"c11.joint {p['k']}")
         name = self._table_name(case)
         if name:
             reqs.append(f"c11.shape {name}")
@@ -1383,6 +1393,13 @@ class C11(core.Check):
             if len(a) > 1 and p.get("sketch") not in ("Grid", "Annulus"):
                 if sorted(json.loads(a[1])) != impl["chopped"]:
                     return f"chopped axes of {k}({p.get('sketch', '')}): implementation {impl['chopped']}, model {a[1]}"
+        if k == "NJoint":
+            # the uniform hand model of a joint with any number of branches
+            a = next(it).split(" ")
+            if a[0] != "[" + ",".join(map(str, flat)) + "]":
+                return f"blocking of NJoint({p['k']}): implementation {impl['blocks']}, joint model {a[0]}"
+            if sorted(json.loads(a[1])) != impl["chopped"]:
+                return f"chop dispatch of NJoint({p['k']}): implementation {impl['chopped']}, joint model {a[1]}"
         if self._table_name(case):
             a = next(it).split(" ")
             if a[0] != "[" + ",".join(map(str, flat)) + "]":
